@@ -2,4 +2,4 @@ From TLXV Require Import C16.Ring C16.SVec C16.RingRefine C16.SVecProofs.
 Require Extraction. Require ExtrOcamlBasic.
 Extraction Language OCaml.
 Extraction "../ocaml/gen/C16_model.ml" Ring.run Ring.init_state Ring.final_bad RingRefine.valid RingRefine.srun
-  SVec.vrun SVec.vinit SVec.vfinal_ok SVecProofs.svalid SVecProofs.srun.
+  SVec.vrun SVec.vinit SVec.vfinal_ok SVecProofs.svalid SVecProofs.srun SVec.live_elems SVec.vstep Ring.live_slots Ring.step.
